@@ -20,6 +20,10 @@ theorem copies_agree :
 
 theorem models_agree : bwUtils = bwBackend := rfl
 
+/-- normal form of the regenerated weight formula (`1 / (q2**order + 1)` is the same function) -/
+theorem bw_nf (q2 : Rat) (order : Int) : bwWeightUtils q2 order = 1 / (1 + q2 ^ order.toNat) := by
+  simp only [bwWeightUtils] <;> first | rfl | (congr 1; grind)
+
 /-! ## the frequency grid -/
 
 /-- The per-axis vector has exactly `d` entries. -/
@@ -55,7 +59,7 @@ theorem gain (d i : Int × Int × Int) (cutoff : Rat) (order : Int)
   obtain ⟨⟨a1, a2⟩, ⟨b1, b2⟩, ⟨c1, c2⟩⟩ := hi
   unfold BwKernels.weightAt
   rw [axis_grid _ _ _ hd.1 a1 a2, axis_grid _ _ _ hd.2.1 b1 b2, axis_grid _ _ _ hd.2.2 c1 c2]
-  rfl
+  exact bw_nf _ _
 
 /-- **Mean preserved**: the weight of zero frequency is exactly 1 (for `order ≥ 1`). -/
 theorem dc_weight (d : Int × Int × Int) (cutoff : Rat) (order : Int)
@@ -118,7 +122,7 @@ theorem identity_guard (cutoff s : Rat) :
 /-- The weight lies in `(0, 1]` (so the filter never amplifies), for `cutoff ≠ 0`. -/
 theorem weight_range (q2 : Rat) (order : Int) (hq : 0 ≤ q2) :
     0 < bwWeightUtils q2 order ∧ bwWeightUtils q2 order ≤ 1 := by
-  simp only [bwWeightUtils]
+  rw [bw_nf]
   have hp : 0 ≤ q2 ^ order.toNat := Rat.pow_nonneg hq
   have hpos : (0 : Rat) < 1 + q2 ^ order.toNat := by grind
   constructor
